@@ -50,6 +50,7 @@ pub trait DiffHook: Sized {
     /*@*/ spec fn observes_finish() -> bool;               // does `finish` leave a trace (false for the no-op default)
     /*@*/ spec fn replace_is_atomic() -> bool;             // `replace` records one Replace event (overriding hooks) / Delete+Insert (default)
     /*@*/ spec fn accepts_replace(&self) -> bool;          // may `replace` be called (false for the Replace adapter: outside the verified envelope)
+    /*@*/ spec fn config(&self) -> Self;                   // the part of the hook that no call changes (adapters: their configuration); framed by every call
     /*@*/ #[verifier::prophetic]
     /*@*/ spec fn fobs(&self) -> Obs<Self::Error>;         // prophecy: what the hook(s) borrowed inside this value will look like when the borrows end;
     /*@*/                                                  // no call re-seats such a borrow, so it never changes (lets callers resolve `&mut` hooks stored in adapters)
@@ -60,7 +61,7 @@ pub trait DiffHook: Sized {
     fn equal(&mut self, old_index: usize, new_index: usize, len: usize) -> (res: Result<(), Self::Error>)
     /*@*/     requires hook_pre_c((*old(self)).failed(), (*old(self)).relies(), (*old(self)).rely_rel(), (*old(self)).rely_st(), Ev::Equal(old_index, new_index, len)),
     /*@*/     ensures hook_frame_c((*old(self)).relies(), (*final(self)).relies(), (*old(self)).rely_rel(), (*final(self)).rely_rel(), (*old(self)).accepts_replace(), (*final(self)).accepts_replace(), (*final(self)).failed(), (*final(self)).last_err(), res),
-    /*@*/         (*final(self)).fobs() == (*old(self)).fobs(),
+    /*@*/         (*final(self)).fobs() == (*old(self)).fobs(), (*final(self)).config() == (*old(self)).config(),
     /*@*/         res.is_ok() ==> (*final(self)).trace() == (*old(self)).trace().push(Ev::Equal(old_index, new_index, len)),
     /*@*/         res.is_ok() ==> (*final(self)).rely_st() == step_rel((*old(self)).rely_rel(), (*old(self)).rely_st(), Ev::Equal(old_index, new_index, len)),
     ;
@@ -75,7 +76,7 @@ pub trait DiffHook: Sized {
     ) -> (res: Result<(), Self::Error>)
     /*@*/     requires hook_pre_c((*old(self)).failed(), (*old(self)).relies(), (*old(self)).rely_rel(), (*old(self)).rely_st(), Ev::Delete(old_index, old_len, new_index)),
     /*@*/     ensures hook_frame_c((*old(self)).relies(), (*final(self)).relies(), (*old(self)).rely_rel(), (*final(self)).rely_rel(), (*old(self)).accepts_replace(), (*final(self)).accepts_replace(), (*final(self)).failed(), (*final(self)).last_err(), res),
-    /*@*/         (*final(self)).fobs() == (*old(self)).fobs(),
+    /*@*/         (*final(self)).fobs() == (*old(self)).fobs(), (*final(self)).config() == (*old(self)).config(),
     /*@*/         res.is_ok() ==> (*final(self)).trace() == (*old(self)).trace().push(Ev::Delete(old_index, old_len, new_index)),
     /*@*/         res.is_ok() ==> (*final(self)).rely_st() == step_rel((*old(self)).rely_rel(), (*old(self)).rely_st(), Ev::Delete(old_index, old_len, new_index)),
     ;
@@ -90,7 +91,7 @@ pub trait DiffHook: Sized {
     ) -> (res: Result<(), Self::Error>)
     /*@*/     requires hook_pre_c((*old(self)).failed(), (*old(self)).relies(), (*old(self)).rely_rel(), (*old(self)).rely_st(), Ev::Insert(old_index, new_index, new_len)),
     /*@*/     ensures hook_frame_c((*old(self)).relies(), (*final(self)).relies(), (*old(self)).rely_rel(), (*final(self)).rely_rel(), (*old(self)).accepts_replace(), (*final(self)).accepts_replace(), (*final(self)).failed(), (*final(self)).last_err(), res),
-    /*@*/         (*final(self)).fobs() == (*old(self)).fobs(),
+    /*@*/         (*final(self)).fobs() == (*old(self)).fobs(), (*final(self)).config() == (*old(self)).config(),
     /*@*/         res.is_ok() ==> (*final(self)).trace() == (*old(self)).trace().push(Ev::Insert(old_index, new_index, new_len)),
     /*@*/         res.is_ok() ==> (*final(self)).rely_st() == step_rel((*old(self)).rely_rel(), (*old(self)).rely_st(), Ev::Insert(old_index, new_index, new_len)),
     ;
@@ -114,7 +115,7 @@ pub trait DiffHook: Sized {
     ) -> (res: Result<(), Self::Error>)
     /*@*/     requires hook_pre_c((*old(self)).failed(), (*old(self)).relies(), (*old(self)).rely_rel(), (*old(self)).rely_st(), Ev::Replace(old_index, old_len, new_index, new_len)), (*old(self)).accepts_replace(),
     /*@*/     ensures hook_frame_c((*old(self)).relies(), (*final(self)).relies(), (*old(self)).rely_rel(), (*final(self)).rely_rel(), (*old(self)).accepts_replace(), (*final(self)).accepts_replace(), (*final(self)).failed(), (*final(self)).last_err(), res),
-    /*@*/         (*final(self)).fobs() == (*old(self)).fobs(),
+    /*@*/         (*final(self)).fobs() == (*old(self)).fobs(), (*final(self)).config() == (*old(self)).config(),
     /*@*/         res.is_ok() ==> (*final(self)).trace() == (if Self::replace_is_atomic() { (*old(self)).trace().push(Ev::Replace(old_index, old_len, new_index, new_len)) }
     /*@*/             else { (*old(self)).trace().push(Ev::Delete(old_index, old_len, new_index)).push(Ev::Insert(old_index, new_index, new_len)) }),
     /*@*/         res.is_ok() ==> (*final(self)).rely_st() == step_rel((*old(self)).rely_rel(), (*old(self)).rely_st(), Ev::Replace(old_index, old_len, new_index, new_len)),
@@ -125,7 +126,7 @@ pub trait DiffHook: Sized {
     fn finish(&mut self) -> (res: Result<(), Self::Error>)
     /*@*/     requires !(*old(self)).failed(), (*old(self)).relies() ==> wf((*old(self)).rely_st()),
     /*@*/     ensures hook_frame_c((*old(self)).relies(), (*final(self)).relies(), (*old(self)).rely_rel(), (*final(self)).rely_rel(), (*old(self)).accepts_replace(), (*final(self)).accepts_replace(), (*final(self)).failed(), (*final(self)).last_err(), res),
-    /*@*/         (*final(self)).fobs() == (*old(self)).fobs(),
+    /*@*/         (*final(self)).fobs() == (*old(self)).fobs(), (*final(self)).config() == (*old(self)).config(),
     /*@*/         res.is_ok() ==> (*final(self)).trace() == (*old(self)).trace() + (if Self::observes_finish() { seq![Ev::Finish] } else { Seq::<Ev>::empty() }),
     /*@*/         res.is_ok() ==> (*final(self)).rely_st() == (if Self::observes_finish() { step_rel((*old(self)).rely_rel(), (*old(self)).rely_st(), Ev::Finish) } else { (*old(self)).rely_st() }),
     ;
@@ -145,6 +146,7 @@ impl<'a, D: DiffHook + 'a> DiffHook for &'a mut D {
     /*@*/ open spec fn replace_is_atomic() -> bool { D::replace_is_atomic() }
     /*@*/ open spec fn accepts_replace(&self) -> bool { (**self).accepts_replace() }
     /*@*/ #[verifier::prophetic] open spec fn fobs(&self) -> Obs<Self::Error> { obs_now(mut_ref_future(*self)) }
+    /*@*/ open spec fn config(&self) -> Self { arbitrary() }
 
     #[inline(always)]
     fn equal(&mut self, old_index: usize, new_index: usize, len: usize) -> (res: Result<(), Self::Error>)
@@ -230,6 +232,7 @@ impl<D: DiffHook> DiffHook for NoFinishHook<D> {
     /*@*/ open spec fn replace_is_atomic() -> bool { D::replace_is_atomic() }
     /*@*/ open spec fn accepts_replace(&self) -> bool { self.inner().accepts_replace() }
     /*@*/ #[verifier::prophetic] open spec fn fobs(&self) -> Obs<Self::Error> { self.inner().fobs() }
+    /*@*/ closed spec fn config(&self) -> Self { NoFinishHook(self.0.config()) }
 
     #[inline(always)]
     fn equal(&mut self, old_index: usize, new_index: usize, len: usize) -> (res: Result<(), Self::Error>)
